@@ -21,6 +21,12 @@ for d in sorted(glob.glob(os.path.join(root, 'seeded', 'C*-*'))):
         res = 'retired (harmless on the repaired tree)'
     else:
         res = '%s by %s quick (%ss)' % (det.get('result', 'not run'), det.get('check', name.split('-')[0]), det.get('seconds', '?'))
+    for x in sorted(glob.glob(os.path.join(d, 'detection-*.json'))):
+        try:
+            o = json.load(open(x))
+            res += '; %s by %s %s (%ss)' % (o.get('result'), o.get('check'), o.get('tier', 'quick'), o.get('seconds', '?'))
+        except (OSError, ValueError):
+            pass
     flags = ' (rebased)' if 'rebased' in meta and meta.get('status') != 'retired' else ''
     rows.append('| %s%s | %s | %s | %s |' % (name, flags, summ, need, res))
 table = '| seed | change | needs to manifest | result |\n|---|---|---|---|\n' + '\n'.join(rows)
